@@ -265,7 +265,7 @@ func c08DispatchTable(r *Run, rule string, dataOnly bool) {
 	})
 	min := 1000
 	if dataOnly {
-		min = 18
+		min = 12
 	}
 	r.Floor(rule, "dispatchFrame cells", cells, min)
 }
